@@ -405,5 +405,6 @@ func requireFuncs(w *World, r *Report, names ...string) (map[string]*ssa.Functio
 	}
 	ReportStateless(w, r, live...)
 	ReportIdxWidth(w, r, names...)
+	ReportWordWidth(w, r, names...)
 	return out, all
 }
